@@ -4,7 +4,7 @@
 From Coq Require Import Extraction ExtrOcamlBasic ExtrOcamlString.
 From QSX Require Import Base.QSum LP.ILP LP.Cert LP.User LP.OptTest LP.Driver.
 (* one Require line per area may be added below *)
-From QSX Require Import Store.Spec.
+From QSX Require Import Store.Spec Store.Api.
 
 Extraction Language OCaml.
 Extraction "model.ml"
@@ -15,4 +15,5 @@ Extraction "model.ml"
   exact_solver_gen exact_solver
   (* add names below, one line per area *)
   sstep pstep dump_lines to_ulp empty_prob valid_args get_h
+  api_init api_edit api_solve api_load_basis api_exact_cert
   .
